@@ -54,6 +54,11 @@ def dump_plan(bdir, build, family, seed, extra=()):
     r = subprocess.run([os.path.join(bdir, 'simrun-' + build), '--family', family, '--seed', str(seed), '--dump-plan'] + list(extra), stdout=subprocess.PIPE, text=True, env=env)
     return json.loads(r.stdout)
 
+def dump_plan_args(bdir, build, args):
+    env = dict(os.environ); env['SIM_NO_REEXEC'] = '1'
+    r = subprocess.run([os.path.join(bdir, 'simrun-' + build)] + [str(a) for a in args] + ['--dump-plan'], stdout=subprocess.PIPE, text=True, env=env)
+    return json.loads(r.stdout)
+
 # ---------------------------------------------------------------------------------------------
 # known findings
 # ---------------------------------------------------------------------------------------------
@@ -136,11 +141,11 @@ def op_str(o):
     if 'f' in o: s += ' faults=%s' % json.dumps(o['f'])
     return s
 
-def sample_of(bdir, build, family, seed, res):
-    try: plan = dump_plan(bdir, build, family, seed)
+def sample_of(bdir, build, family, seed, res, args=None):
+    try: plan = dump_plan_args(bdir, build, args) if args else dump_plan(bdir, build, family, seed)
     except Exception: return {'family': family, 'seed': seed}
     progs = []
-    for pr in plan['progs']:
+    for pr in plan['progs'][:6]:
         progs.append({'n_ops': len(pr['ops']), 'first_ops': [op_str(o) for o in pr['ops'][:10]]})
     c = plan['cfg']
     return {'family': family, 'seed': seed, 'build': build, 'env': plan.get('env', {}),
@@ -177,7 +182,8 @@ def check_property(pid, tier, base_seed, out=sys.stdout, write_evidence=True, ex
     if spec.get('jobgen'):
         jobtmp = tempfile.mkdtemp(prefix='vgen-', dir=os.path.join(VERIF, 'build'))
         for (b, path, fam, sd) in spec['jobgen'](dict(bdir=bdir, tmp=jobtmp, tier=tier, seed=base_seed, simrun=simrun, dump_plan=dump_plan, seed_of=seed_of, cov=extra_cov)):
-            jobs.append((b, ['--replay', path])); meta.append((fam, b, sd)); replays[len(jobs) - 1] = path
+            args = path if isinstance(path, list) else ['--replay', path]
+            jobs.append((b, args)); meta.append((fam, b, sd)); replays[len(jobs) - 1] = args
     results = []
     # run in slices so that the time budget is respected
     slice_n = 2000
@@ -224,7 +230,7 @@ def check_property(pid, tier, base_seed, out=sys.stdout, write_evidence=True, ex
     for (oracle, b), vs in sorted(classes.items(), key=lambda kv: str(kv[0])):
         fam, b, sd, r = vs[0]
         kn = match_known(known, pid, r)
-        if r.get('_job') in replays: plan = json.load(open(replays[r['_job']]))['plan']
+        if r.get('_job') in replays: plan = dump_plan_args(bdir, b, replays[r['_job']])
         else: plan = dump_plan(bdir, b, fam, sd, list(extra_overrides))
         tmpd = tempfile.mkdtemp(prefix='vgate-', dir=os.path.join(VERIF, 'build'))
         rp = os.path.join(tmpd, 'r.json'); json.dump({'plan': plan}, open(rp, 'w'))
@@ -263,10 +269,10 @@ def check_property(pid, tier, base_seed, out=sys.stdout, write_evidence=True, ex
     if write_evidence:
         samples = []
         seen_f = set()
-        for (code, r), (fam, b, sd) in zip(results, meta):
+        for ji, ((code, r), (fam, b, sd)) in enumerate(zip(results, meta)):
             if fam in seen_f or r.get('status') != 'ok': continue
             if nontrivial is not None and not nontrivial(r): continue
-            seen_f.add(fam); samples.append(sample_of(bdir, b, fam, sd, r))
+            seen_f.add(fam); samples.append(sample_of(bdir, b, fam, sd, r, replays.get(ji)))
             if len(samples) >= 3: break
         if not samples and results: samples.append(sample_of(bdir, meta[0][1], meta[0][0], meta[0][2], results[0][1]))
         ev = {'property_id': pid, 'tier': tier, 'seed': base_seed, 'level': spec.get('level', 'exploration'),
